@@ -20,7 +20,7 @@ package service
 //@ property C11 roots (*Server).handleConnection, (*Server).getSession, (*github.com/mdzio/go-mqtt/message.ConnectMessage).Decode, (*github.com/mdzio/go-mqtt/message.ConnectMessage).decodeMessage, (*github.com/mdzio/go-mqtt/message.ConnectMessage).validClientID, (*github.com/mdzio/go-mqtt/message.ConnackMessage).Encode
 //@ property C05 roots getMessageBuffer, getConnectMessage, (*service).peekMessageSize, (*service).peekMessage, (*github.com/mdzio/go-mqtt/message.ConnectMessage).Decode
 //@ property C19 roots (*service).processIncoming, (*service).receiver, (timeoutReader).Read
-//@ property C01 roots (*service).onPublish
+//@ property C01 roots (*service).onPublish, (*Server).Publish, (*service).processUnsubscribe
 //@ property C17 roots (*service).writeMessage, (*stat).increment, (*buffer).WriteTo, (*buffer).ReadPeek, (*buffer).ReadCommit, (*buffer).ReadFrom
 //@ property C17 callers (*buffer).Write, (*buffer).WriteWait, (*buffer).WriteCommit
 //@ property C15 roots (*buffer).Close, (*buffer).Read, (*buffer).ReadPeek, (*buffer).ReadWait, (*buffer).ReadCommit, (*buffer).Write, (*buffer).WriteWait, (*buffer).WriteCommit, (*buffer).waitForWriteSpace, (*buffer).ReadFrom, (*buffer).WriteTo
@@ -826,3 +826,19 @@ func vspecCovered(x int64, start int64, c int64, size int64) bool {
 //@   loop 1 invariant svc.in != nil && vdefRing(svc.in) && vdefStream(svc.in) && heldsame() && svc.in.cseq.cursor == old(svc.in.cseq.cursor) && gfield(svc.in, "rwfail") >= old(gfield(svc.in, "rwfail"))
 //@   ensures[C05:decoded] err == nil ==> msg != nil && 0 <= n
 //@   modifies heap("F.service.buffer.tmp"), allelems(byte), heap("GF.clock"), heap("GF.lockedAt"), heap("GF.readAt"), heap("GF.doneAt"), heap("GF.doneSeen"), heap("GF.rwfail"), heap("GF.decarr"), heap("GF.decoff"), heap("GF.declen")
+
+// Server.Publish (in-process publisher): the same fan-out as onPublish (C01).
+//@ func (*Server).checkConfiguration
+//@   flag bodyhash 48b2f9c91c9a
+//@   trusted
+//@   results err
+//@   ensures err == nil ==> svr.topicsMgr != nil && svr.topicsMgr.p != nil
+//@   modifies fields(svr)
+//@ func (*Server).Publish
+//@   results err
+//@   flag maypanic-typeassert
+//@   requires msg != nil && len(msg.mtypeflags) == 1
+//@   atcall functype github.com/mdzio/go-mqtt/service.OnPublishFunc requires[C01:qos] qoss[rangeindex+1] <= 2 ==> message.vspecQoSOf(msg.mtypeflags[0]) == qoss[rangeindex+1]
+//@   loop 1 invariant len(msg.mtypeflags) == 1 && gfield(0, "ncb") == old(gfield(0, "ncb"))+rangeindex+1 && rangeindex < len(rangeslice) && heldsame() && len(qoss) == len(rangeslice) && sameslice(rangeslice, subs)
+//@   ensures[C01:fanout] err == nil ==> gfield(0, "ncb") >= old(gfield(0, "ncb"))
+//@   modifies modset(Callback), msg.remlen, msg.dirty, msg.packetID, modset(TopicStore), fields(svr), allelems(interface{})
